@@ -179,6 +179,18 @@ func zzC01_other(which int) {
 		raw := nondetBytes(48)
 		ok, err = IdentityBLSPublicKey().Verify(raw, msg, h)
 		verifAssert(bAnd(!ok, err == nil), "the identity key rejects every string")
+	case 7: // identity public keys however they are obtained: removal of all keys, decoding (cancelling aggregation: C02/C04)
+		idRem, err := RemoveBLSPublicKeys(pk, []PublicKey{pk})
+		verifAssert(err == nil, "RemoveBLSPublicKeys")
+		idDec, err := DecodePublicKey(BLSBLS12381, IdentityBLSPublicKey().Encode())
+		verifAssert(err == nil, "the identity key decodes")
+		for _, idk := range []PublicKey{idRem, idDec} {
+			verifAssert(idk.Equals(IdentityBLSPublicKey()), "it is the identity key")
+			ok, err := idk.Verify(g1Serialization, msg, h)
+			verifAssert(bAnd(!ok, err == nil), "an identity key (however obtained) rejects the identity signature")
+			ok, err = idk.Verify(sig, msg, h)
+			verifAssert(bAnd(!ok, err == nil), "an identity key (however obtained) rejects a valid-looking signature")
+		}
 	case 5: // hasher guards
 		ok, err := pk.Verify(sig, msg, nil)
 		verifAssert(bAnd(!ok, IsNilHasherError(err)), "nil hasher error")
